@@ -1,3 +1,4 @@
+use super::super::util::hex_escape_end;
 use super::super::{PResult, Span, input_to_str, input_to_string};
 use super::{nom_err, opt_spacelike};
 use crate::css::CssString;
@@ -169,7 +170,7 @@ fn hex_number(input: Span) -> PResult<u32> {
         map_res(
             terminated(
                 recognize(many_m_n(1, 6, one_of("0123456789ABCDEFabcdef"))),
-                opt(tag(" ")),
+                opt(hex_escape_end),
             ),
             input_to_str,
         ),
